@@ -700,3 +700,51 @@ def gen_program(rng, cascade=False, banks=None, faults=True, labelalign=False, n
     pg = ProgGen(rng, isa, banks=use_banks, faults=faults, labelalign=labelalign, n_items=n_items)
     prog = pg.gen()
     return prog
+
+
+def gen_deep_cascade(rng):
+    """A program whose jump sizes depend on each other through several passes: k forward/backward jumps with a
+    short pc-relative form (guarded by assert) and a long absolute form, separated by fillers sized so that the
+    distances sit near the short form's limit - shrinking one jump brings others into range."""
+    lim = rng.choice([8, 16, 32, 127])
+    d = ("par", ("bin", "-", ("var", 0, ["a"]), ("pc",)))
+    cond = ("bin", "&&", ("bin", "<", d, num(lim)), ("bin", ">=", d, num(-lim)))
+    op = rng.getrandbits(8)
+    rules = [
+        {"pat": [("lit", "jr"), ("param", "a", None)],
+         "prod": ("block", [("call", "assert", [cond]), concat([lit_sized(rng, 8, op), ("sshort", d, num(8))])]), "size": 16, "name": "r0"},
+        {"pat": [("lit", "jr"), ("param", "a", None)],
+         "prod": concat([lit_sized(rng, 8, (op + 1) & 0xff), ("sshort", ("var", 0, ["a"]), num(24))]), "size": 32, "name": "r1"},
+        {"pat": [("lit", "nop")], "prod": lit_sized(rng, 8), "size": 8, "name": "r2"},
+    ]
+    if rng.random() < 0.5:
+        # a third, medium form selected by typed width
+        rules.insert(1, {"pat": [("lit", "jr"), ("param", "a", ("u", 12))],
+                         "prod": concat([lit_sized(rng, 8, (op + 2) & 0xff), lit_sized(rng, 4), ("var", 0, ["a"])]), "size": 24, "name": "r1b"})
+        for i, r in enumerate(rules):
+            r["name"] = "r%d" % i
+    isa = {"rules": rules, "subs": {}, "comma_space": True}
+    k = rng.randint(3, 14)
+    items = []
+    labels = ["t%d" % i for i in range(k)]
+    order = list(range(k))
+    slots = []
+    for i in range(k):
+        slots.append(("instr", [("t", "jr", "lit"), ("t", labels[rng.randrange(k)], "sym")]))
+        for _ in range(rng.choice([0, 0, 1, 2])):
+            slots.append(("instr", [("t", "nop", "lit")]))
+        if rng.random() < 0.4:
+            slots.append(("res", num(rng.choice([1, 2, lim // 2, lim - 3 if lim > 4 else 1, lim - 1]))))
+    # sprinkle the labels between the slots
+    pos = sorted(rng.sample(range(len(slots) + 1), min(k, len(slots) + 1)))
+    out = []
+    li = 0
+    for j, sl in enumerate(slots):
+        while li < len(pos) and pos[li] == j:
+            out.append(("label", labels[li], 0))
+            li += 1
+        out.append(sl)
+    while li < k:
+        out.append(("label", labels[li], 0))
+        li += 1
+    return {"isa": isa, "banks": [], "items": out, "fault": None}
